@@ -131,9 +131,9 @@ def u_rules_get_destinations(ctx, index):
     G['pi'] = z3.If(grew, z3.Store(G['pi'], n0, p), G['pi'])
     G['dst'] = z3.If(grew, z3.Store(G['dst'], k, z3.Store(z3.Select(G['dst'], k), p, n0)), G['dst'])
   Q = RR + '.getDestinations'
-  ip.loops[(Q, 0)] = LoopSpec('for rule in self.rules', inv0, havoc0, ghost_pre=pre0, locals_modified=['rule', 'destination'])
+  ip.loops[(Q, 0)] = LoopSpec('for rule in self.rules', inv0, havoc0, ghost_pre=pre0, locals_modified=[])
   ip.loops[(Q, 1)] = LoopSpec('for destination in rule.destinations', inv1, havoc1, ghost_step=step1,
-                              locals_modified=['destination'])
+                              locals_modified=[])
   raised = None
   try:
     out = ip.run(Q, [key], self_obj=router)
@@ -313,8 +313,7 @@ def u_load_relay_rules(ctx, index):
       fr.ghost['default_at'] = k_done
   Q = RL + ':loadRelayRules'
   ip.loops[(Q, 0)] = LoopSpec('for section in parser.sections()', inv, havoc, ghost_pre=pre, ghost_step=step,
-                              locals_modified=['section', 'destination_strings', 'destinations', 'pattern', 'regex',
-                                               'continue_matching', 'rule', 'defaultRule'])
+                              locals_modified=['defaultRule'])
   ip.ext[('new', RL + ':RelayRule')] = None
   del ip.ext[('new', RL + ':RelayRule')]
   raised, r = None, None
@@ -423,7 +422,7 @@ def u_agg_get_destinations(ctx, index):
   def step0(fr):
     CM.ordered_filter_step(fr, resolved(fr).term, fr.ghost['before'], fr.loop_k[0] - 1)
   ip.loops[(Q, 0)] = LoopSpec('for rule in self.agg_rules_manager.rules', inv0, havoc0, ghost_pre=pre0, ghost_step=step0,
-                              locals_modified=['rule', 'aggregate_metric'])
+                              locals_modified=[])
 
   # loops 1/2: destinations == union of HR(resolved[i]) for i < k1 (plus positions < k2 of resolved[k1])
   def union_inv(fr, k1, k2):
@@ -457,7 +456,7 @@ def u_agg_get_destinations(ctx, index):
     G['wp'] = ctx.fresh(z3.ArraySort(Dest, I), 'wp')
     G['dset_before'] = fr['destinations'].snapshot()
   ip.loops[(Q, 1)] = LoopSpec('for resolved_metric in resolved_metrics', inv1, havoc12, ghost_pre=pre1,
-                              locals_modified=['resolved_metric', 'destination'])
+                              locals_modified=[])
 
   def inv2(fr):
     return union_inv(fr, fr.loop_k[1], fr.loop_k[2])
@@ -471,7 +470,7 @@ def u_agg_get_destinations(ctx, index):
     G['wi'] = z3.If(was, G['wi'], z3.Store(G['wi'], dz, fr.loop_k[1]))
     G['wp'] = z3.If(was, G['wp'], z3.Store(G['wp'], dz, fr.loop_k[2] - 1))
   ip.loops[(Q, 2)] = LoopSpec('for destination in self.hash_router.getDestinations(', inv2, havoc12,
-                              ghost_step=step2, locals_modified=['destination'])
+                              ghost_step=step2, locals_modified=[])
 
   def inv3(fr):
     k = fr.loop_k[3]
@@ -480,7 +479,7 @@ def u_agg_get_destinations(ctx, index):
   def havoc3(fr):
     fr.gen_out.havoc(ip, 'out')
     G['elems'] = fr.ghost['seq3']
-  ip.loops[(Q, 3)] = LoopSpec('for destination in destinations', inv3, havoc3, locals_modified=['destination'])
+  ip.loops[(Q, 3)] = LoopSpec('for destination in destinations', inv3, havoc3, locals_modified=[])
   raised = None
   try:
     out = ip.run(Q, [key], self_obj=router)
